@@ -422,6 +422,7 @@ let c04 (payload : string) : string =
   (* rid -> (target, codec, dec, h, pathname/methname, C) *)
   let names : (int, string) Hashtbl.t = Hashtbl.create 16 in
   let setsmeta : (int, bool) Hashtbl.t = Hashtbl.create 16 in
+  let gate : (int, (string * int)) Hashtbl.t = Hashtbl.create 16 in
   let intern =
     let t : (string, int) Hashtbl.t = Hashtbl.create 16 in
     fun s -> (match Hashtbl.find_opt t s with Some i -> i | None ->
@@ -434,6 +435,14 @@ let c04 (payload : string) : string =
       CRead (nat_of_int (int_of_string conn), nat_of_int ridi,
              { q_seq = n_of_dec seq; q_path = nat_of_int (intern path); q_meth = nat_of_int (intern meth);
                q_ser = n_of_dec ser; q_hb = b hb; q_oneway = b ow; q_args = nat_of_int ridi })
+    | ["G"; conn; rid; seq; path; meth; ser; hb; ow; kind; text] ->
+      (* a request that the PostReadRequest plugins (kind l) or AuthFunc (kind a) refuse with the given text *)
+      let ridi = int_of_string rid in
+      Hashtbl.replace tbl ridi ("gate", "1", "1", "r0", path ^ "." ^ meth, 0);
+      Hashtbl.replace gate ridi (kind, int_of_string text);
+      CRead (nat_of_int (int_of_string conn), nat_of_int ridi,
+             { q_seq = n_of_dec seq; q_path = nat_of_int (intern path); q_meth = nat_of_int (intern meth);
+               q_ser = n_of_dec ser; q_hb = b hb; q_oneway = b ow; q_args = nat_of_int ridi })
     | ["D"; rid] -> CDone (nat_of_int (int_of_string rid))
     | _ -> failwith ("event " ^ t)) toks in
   let find_req (args : nat) = Hashtbl.find tbl (int_of_nat args) in
@@ -441,7 +450,7 @@ let c04 (payload : string) : string =
   let by_pm : (int * int, string) Hashtbl.t = Hashtbl.create 16 in
   List.iter (fun e -> match e with
     | CRead (_, rid, q) -> let (target, _, _, _, _, _) = Hashtbl.find tbl (int_of_nat rid) in
-      Hashtbl.replace by_pm (int_of_nat q.q_path, int_of_nat q.q_meth) target
+      if target <> "gate" then Hashtbl.replace by_pm (int_of_nat q.q_path, int_of_nat q.q_meth) target
     | _ -> ()) evs;
   let find p m = (match Hashtbl.find_opt by_pm (int_of_nat p, int_of_nat m) with
     | Some "router" -> TRouter | Some "nosvc" -> TNoService | Some "nometh" -> TNoMethod
@@ -455,7 +464,9 @@ let c04 (payload : string) : string =
   ignore cur_args;
   (* the response metadata the handler sets: one entry (key 1 = "trace-id", value = the request id) *)
   let hmeta _ _ (args : nat) = if Hashtbl.mem setsmeta (int_of_nat args) then [(nat_of_int 1, args)] else [] in
-  let st = crun find codec_ok decodable handler hmeta cinit evs in
+  let refuses k _ _ (args : nat) = (match Hashtbl.find_opt gate (int_of_nat args) with
+    | Some (k', t) when k' = k -> Some (nat_of_int t) | _ -> None) in
+  let st = (grun find codec_ok decodable handler hmeta (refuses "l") (refuses "a") ginit evs).gbase in
   let show_err e = (match e with
     | None -> "-" | Some (XExact t) -> "text:" ^ string_of_int (int_of_nat t)
     | Some (XPanic v) -> "panic:" ^ string_of_int (int_of_nat v)
